@@ -331,30 +331,20 @@ ycw_get_yday(unsigned int y, int c, echs_wday_t w)
 
 	/* if W == j01w, the first W is the first yday
 	 * the second W is the 8th yday, etc.
-	 * so the first W is on 1 + diff */
-	if (c > 0) {
-		return 7 * (c - 1) + diff + 1;
-	} else if (c < 0) {
-		/* similarly for negative c,
-		 * there's always the 53rd J01 in Y,
-		 * mapping to the 365th day */
-		unsigned int res = 7U * (53 + c) + diff + 1U;
+	 * so the first W is on 1 + diff
+	 * there's 52 Ws in a year, and a 53rd when the first W is on the
+	 * first day of the year (or the second, in leap years) */
+	const int nw = 52 + (diff == 0U || (diff == 1U && !(y % 4U)));
 
-		switch (diff) {
-		default:
-			break;
-		case 0:
-			return res;
-		case 1:
-			if (UNLIKELY(!(y % 4U)/*leap year*/)) {
-				return res;
-			}
-			break;
-		}
-		return res - 7;
+	if (c < 0) {
+		/* count from the end */
+		c += nw + 1;
 	}
-	/* otherwise it's bullshit */
-	return 0U;
+	if (UNLIKELY(c <= 0 || c > nw)) {
+		/* there's no such day in Y */
+		return 0U;
+	}
+	return 7U * (c - 1) + diff + 1U;
 }
 
 static unsigned int
